@@ -9,6 +9,7 @@
 #include <deque>
 #include <vector>
 #include <map>
+#include <set>
 #include <errno.h>
 #include <limits.h>
 #include <string.h>
@@ -42,6 +43,7 @@ struct TRec {
     std::vector<int> atexit_pending;    // stack: registered and not yet run
     std::vector<int> atexit_nesting;    // tags whose callback registers one more callback while the chain is being run
     int atexit_ran = 0;
+    std::set<int> atexit_floating;      // registered by the allocator's release path: must run once on this thread, position in the chain not modelled
     bool registering = false; // an aws_thread_current_at_exit call of the workload is in progress (its tag is already on top of atexit_pending)
     int os_joins = 0;
     bool joined_by_api = false;
@@ -78,6 +80,12 @@ void atexit_cb(void *ud) {
     if (sim::self() != r.sim_tid)
         sim::violation("c20:atexit-thread", "at-exit callback of thread %d ran on T%d instead of its own thread T%d", id, sim::self(), r.sim_tid);
     if (!r.fn_done) sim::violation("c20:atexit-early", "at-exit callback of thread %d ran before the thread function returned", id);
+    if (r.atexit_floating.count(tag)) {
+        r.atexit_floating.erase(tag);
+        r.atexit_ran++;
+        c.hist = sim::mix64(c.hist, (uint64_t)code);
+        return;
+    }
     if (r.atexit_pending.empty()) sim::violation("c20:atexit-twice", "thread %d: more at-exit invocations than registrations", id);
     int expect = r.atexit_pending.back();
     if (tag != expect)
@@ -154,6 +162,31 @@ void alloc_hook(size_t, void *ud) {
         r.atexit_registered.push_back(tag);
         if (r.registering && !r.atexit_pending.empty()) r.atexit_pending.insert(r.atexit_pending.end() - 1, tag); // completed before the outer one is linked in
         else r.atexit_pending.push_back(tag);
+    }
+    g_in_alloc_hook = false;
+}
+
+// the same allocator flushing per-thread state from its release path: whichever launched thread releases a block (its own records, or the
+// wrapper of a predecessor it joins on its way out) may find the allocator registering an at-exit callback on it. A registration that
+// is ACCEPTED must run on that thread before the thread is reported joined; the library is free to refuse it once the chain has been run.
+static std::map<int, int> g_rel_regs;
+void release_hook(void *ud) {
+    Ctx *c = (Ctx *)ud;
+    if (!c || !sim::active() || g_in_alloc_hook) return;
+    auto it = c->by_tid.find(sim::self());
+    if (it == c->by_tid.end()) return;
+    int id = it->second;
+    TRec &r = c->t[id];
+    if (!r.fn_done || g_rel_regs[id] >= 2) return; // only on the thread's way out (during the body the acquire-side hook covers it)
+    g_rel_regs[id]++;
+    g_in_alloc_hook = true;
+    int tag = (int)r.atexit_registered.size() + 1;
+    if (aws_thread_current_at_exit(atexit_cb, (void *)(intptr_t)(id * 1000 + tag)) == AWS_OP_SUCCESS) {
+        r.atexit_registered.push_back(tag);
+        r.atexit_floating.insert(tag);
+        sim::probe("allocator_release_path_registered_an_at_exit_callback_after_the_thread_function");
+    } else {
+        sim::probe("at_exit_registration_refused_after_the_chain_was_run");
     }
     g_in_alloc_hook = false;
 }
@@ -521,8 +554,10 @@ RunInfo run(const sim::Plan &plan) {
     sim::set_observer(observer, &c);
     g_logger_regs.clear();
     g_alloc_regs.clear();
+    g_rel_regs.clear();
     aws_logger_set(&g_thread_logger);
     if (plan.get("alloc_registers_atexit", 0)) simalloc::set_acquire_hook(alloc_hook, &c);
+    if (plan.get("alloc_release_registers_atexit", 0)) simalloc::set_prerelease_hook(release_hook, &c);
     c.small_default_stack = plan.get("small_default_stack", 0) != 0;
     if (c.small_default_stack) sim::set_default_stack(128 << 10);
     c.main_tid = sim::self();
@@ -662,6 +697,7 @@ void gen(uint64_t seed, int tier, sim::Plan &p) {
     p.cfg["cpu_cost"] = r.pick(std::vector<int64_t>{1000, 10000, 100000});
     if (r.chance(0.2)) p.cfg["alloc_registers_atexit"] = 1;
     if (r.chance(0.2)) p.cfg["small_default_stack"] = 1;
+    if (r.chance(0.15)) p.cfg["alloc_release_registers_atexit"] = 1;
     p.cfg["soft_budget"] = 30000;
     p.cfg["hard_budget"] = 3000000;
 }
@@ -703,7 +739,8 @@ extern const Harness H_C20 = {
     "generated order and calls aws_thread_join_all_managed before, while and after managed threads finish, sometimes with a join timeout; "
     "faults: preemption at every lock/cond/create/join, spurious wake-ups, stalls, REALTIME steps, pthread_create failing with "
     "EAGAIN/ENOMEM/EPERM/EINVAL, pthread_attr_setaffinity_np failing (unpinned retry); in 20% of the plans the simulated system's default "
-    "thread stack is 128 KiB (musl-like) and bodies of threads launched with options use a 300 KiB frame. Distinct = synchronisation-order fingerprint combined "
+    "thread stack is 128 KiB (musl-like) and bodies of threads launched with options use a 300 KiB frame; allocator that registers at-exit callbacks from its "
+    "acquire path (20%) or from its release path on a thread's way out (15%). Distinct = synchronisation-order fingerprint combined "
     "with the start/finish/callback history; non-trivial = at least two threads launched, shared sync objects, at least one preemption.",
     "source/posix/thread.c, thread_shared.c, posix/mutex.c, posix/condition_variable.c, condition_variable.c, posix/clock.c, linked_list, "
     "string.c, allocator.c (real)",
